@@ -69,8 +69,11 @@ func New(logger zerolog.Logger, proxies ...string) func(http.Handler) http.Handl
 			} else {
 				ipHolders = append(ipHolders, ipNet)
 			}
+		} else if ip := net.ParseIP(ipAddr); ip != nil {
+			ipHolders = append(ipHolders, simpleIP(ip))
 		} else {
-			ipHolders = append(ipHolders, simpleIP(net.ParseIP(ipAddr)))
+			// must not be kept: a nil IP equals the (nil) result of parsing a not parsable peer address
+			logger.Warn().Msgf("Trusted proxies IP %q could not be parsed", ipAddr)
 		}
 	}
 
